@@ -34,6 +34,11 @@ func (h *hist) commit(op *pendingOp) (err error, alive bool) {
 	}
 	h.raw = append(h.raw, raw)
 	idx := len(h.raw) - 1
+	if h.tree != nil && h.tree.liveAcl != nil {
+		if lerr := h.tree.liveAcl.AddRawRecord(raw); lerr != nil {
+			h.violate("keys.tree-live", fmt.Sprintf("the owner's live AclList rejects accepted record %d: %v", idx, lerr))
+		}
+	}
 	h.trace = append(h.trace, fmt.Sprintf("%d:%s", idx, op.name))
 	data, _, derr := decodeData(raw)
 	if derr != nil {
